@@ -221,7 +221,36 @@ pub fn run(outdir: &str, seed: u64, thorough: bool) -> serde_json::Value {
         let b = *i2f.value(&value::Integer::from(9007199254740993)).unwrap();
         st.known.push(json!({"finding": "C12-int-float-above-2p53", "reproduced": a == b, "a": 9007199254740992i64, "b": 9007199254740993i64, "converted": a}));
     }
+    // ---- correspondence: the List and Optional liftings of Float -> Integer on the real injections ----
+    let mut c_ll: Vec<String> = vec![]; let mut c_ol: Vec<String> = vec![];
+    {
+        let ll = DataType::list(DataType::float(), 0, 8).inject_into(&DataType::list(DataType::integer(), 0, 8));
+        let ol = DataType::optional(DataType::float()).inject_into(&DataType::optional(DataType::integer()));
+        let gen = |r: &mut Rng| -> f64 { match r.below(6) { 0 => (r.range(-40, 40) as f64) / 4.0, 1 => r.range(-1000, 1000) as f64, 2 => *r.pick(&[9223372036854775808.0, -9223372036854775808.0, 4503599627370495.5, 0.0, -0.0, 1e19, 0.5]), 3 => (r.next() as i64) as f64, _ => r.range(-5, 5) as f64 } };
+        for _ in 0..(if thorough { 6000 } else { 600 }) {
+            let mut r = rng.fork();
+            let xs: Vec<f64> = (0..r.range(0, 5)).map(|_| gen(&mut r)).collect();
+            if let Ok(inj) = &ll {
+                let res = catch_unwind(AssertUnwindSafe(|| inj.value(&Value::list(xs.iter().map(|x| Value::float(*x)).collect::<Vec<_>>())).ok()));
+                if let Ok(res) = res {
+                    let out: Option<Vec<i64>> = res.and_then(|v| if let Value::List(l) = v { l.iter().map(|e| if let Value::Integer(i) = e { Some(**i) } else { None }).collect() } else { None });
+                    c_ll.push(format!("({}, {})", coq_list(&xs, |x| coq_z(x.to_bits() as i128)), coq_opt(&out, |l| coq_list(l, |i| coq_z(*i as i128)))));
+                    st.bump(if out.is_some() { "list_lift_accepted" } else { "list_lift_refused" });
+                }
+            }
+            let x: Option<f64> = if r.chance(1, 4) { None } else { Some(gen(&mut r)) };
+            if let Ok(inj) = &ol {
+                let arg = match x { Some(v) => Value::some(Value::float(v)), None => Value::none() };
+                if let Ok(res) = catch_unwind(AssertUnwindSafe(|| inj.value(&arg).ok())) {
+                    let out: Option<Option<i64>> = res.and_then(|v| if let Value::Optional(o) = v { match o.as_deref() { None => Some(None), Some(Value::Integer(i)) => Some(Some(**i)), _ => None } } else { None });
+                    c_ol.push(format!("({}, {})", coq_opt(&x, |v| coq_z(v.to_bits() as i128)), coq_opt(&out, |o| coq_opt(o, |i| coq_z(*i as i128)))));
+                }
+            }
+        }
+    }
     let header = "From QV Require Import Corr.Lib Corr.C12.";
+    let f5 = write_shards(outdir, "c12_list_lift", header, "list Z * option (list Z)", "list_lift_check", &c_ll, 400);
+    let f6 = write_shards(outdir, "c12_opt_lift", header, "option Z * option (option Z)", "opt_lift_check", &c_ol, 400);
     let f1 = write_shards(outdir, "c12_i2f", header, "Z * Z", "i2f_check", &c_i2f, if thorough { 2500 } else { 400 });
     let f2 = write_shards(outdir, "c12_f2i", header, "Z * option Z", "f2i_check", &c_f2i, if thorough { 2500 } else { 400 });
     let f3 = write_shards(outdir, "c12_img", header, "list (Z * Z) * list (Z * Z)", "image_check", &c_img, 500);
@@ -230,6 +259,6 @@ pub fn run(outdir: &str, seed: u64, thorough: bool) -> serde_json::Value {
         std::fs::write(format!("{}/{}.json", outdir, n), serde_json::to_string(j).unwrap()).unwrap();
     }
     let mut out = st.to_json("numeric conversions on extreme and tie-breaking inputs (non-trivial: |i| > 2^53, non-integral or huge floats); interval-set images; laws: random types over boolean/integer/float/text/optional/struct/list (depth <= 2) x 8 targets x 4 sampled values (distinct by (type, target, values))");
-    out["shards"] = json!({"c12_i2f": f1, "c12_f2i": f2, "c12_img": f3, "c12_i2b": f4});
+    out["shards"] = json!({"c12_i2f": f1, "c12_f2i": f2, "c12_img": f3, "c12_i2b": f4, "c12_list_lift": f5, "c12_opt_lift": f6});
     out
 }
